@@ -132,7 +132,11 @@ func poolRound(tw *traceWriter, r *rand.Rand, provider string, g, perG int) {
 					rec := httptest.NewRecorder()
 					func() {
 						defer func() { recover() }()
-						c.Dispatch(rec, hr)
+						if rr.Intn(2) == 0 {
+							c.ServeHTTP(rec, hr) // the writer is closed by dispatch and again by ServeHTTP
+						} else {
+							c.Dispatch(rec, hr)
+						}
 					}()
 					ok, decoded := decodeBody(rec.Header().Get("Content-Encoding"), rec.Body.Bytes())
 					want := append([]byte("payload-"+id+"-"), bytes.Repeat([]byte(id), 50)...)
